@@ -14,7 +14,7 @@ import ast
 
 from ..index import AnchorMissing, Unrecognised
 from ..cfg import CFG
-from ..astutil import u, body_walk, local_env, func_calls, walk_local, single_return_expr
+from ..astutil import linear_body, u, body_walk, local_env, func_calls, walk_local, single_return_expr
 from ..pend import edge_facts, is_none_fact, yields_value, is_raise, facts
 from .. import sym
 
@@ -67,13 +67,13 @@ def r1_pending_group(ctx):
            CFG.show(bad) if bad else "", key="C12-R1|left_join")
     # leftover groups raise
     txt = u(lj.node)
-    tr = [n for n in lj.node.body if isinstance(n, ast.Try)]
+    tr = [n for n in linear_body(lj.node) if isinstance(n, ast.Try)]
     ok = len(tr) == 1 and tr[0].orelse and isinstance(tr[0].orelse[-1], ast.Raise) and any(isinstance(h.type, ast.Name) and h.type.id == "StopIteration" for h in tr[0].handlers) \
         and "next(%s)" % lj.params[1] in u(tr[0].body[0])
     ctx.ob(lj.where, "left_join: groups left in the right-hand stream after the walk raise", ok, "", key="C12-R1|left_join-leftover")
     ys = [x for x in ast.walk(lj.node) if isinstance(x, ast.Yield)]
     forms = sorted(u(y.value) for y in ys)
-    left_loop = [n for n in lj.node.body if isinstance(n, ast.For)]
+    left_loop = [n for n in linear_body(lj.node) if isinstance(n, ast.For)]
     ctx.need(len(left_loop) == 1 and isinstance(left_loop[0].target, ast.Tuple), "left_join: loop over the left groups not found")
     nl, dl = (e.id for e in left_loop[0].target.elts)
     ok = forms == sorted([f"({nl}, {dl}, default_value)", f"({nl}, {dl}, {grp2})"])
